@@ -45,10 +45,10 @@ fn registry(prop: &str) -> Option<(CheckSpec, RunFn, Cands)> {
             Some((s, cluster::splits::run_c13, cluster::runs::shrink_candidates))
         }
         "C10" => {
-            let mut s = base("C10", "one run = one seeded world (2-6 nodes) x 8 statements; each statement is first executed fault-free (recording every fragment reply), then re-executed with 1-3 seeded faults on its remote fragments (transport errors of six kinds, truncation at a fraction / a few bytes before the end / exactly before the end-of-stream marker, single-bit flips, forged digest, duplicated request, delay up to 900 simulated seconds); one run in eight additionally re-delivers one recorded reply cut at EVERY byte offset through the real coordinator with a canned responder; a case is non-trivial when at least one fault fired; distinct = distinct (shape, fired fault kinds, family, statement)", 320, 12000);
+            let mut s = base("C10", "one run = one seeded world (2-6 nodes) x 8 statements; each statement is first executed fault-free (recording every fragment reply), then re-executed with 1-3 seeded faults on its remote fragments (transport errors of six kinds, truncation at a fraction / a few bytes before the end / exactly before the end-of-stream marker, single-bit flips, forged digest, duplicated request, delay up to 900 simulated seconds); one run in eight additionally re-delivers one recorded reply cut at EVERY byte offset through the real coordinator with a canned responder; one run in five works at the wire instead: POST /sql?distributed=1 against real NodeStates behind real hyper framing and the real http_client, with a link that cuts ONE real /fragment response (clean close or reset) at enumerated offsets -- every header byte, the first and last 48 body bytes and a seeded sample in the quick tier, every byte in the thorough tier -- and requires an error status whenever the cut removed at least one byte; a case is non-trivial when at least one fault fired; distinct = distinct (shape or wire region, fired fault kinds / offset, family, statement)", 320, 12000);
             s.level = "fault_enumeration";
-            s.expected_probes = &["reply_fully_enumerated", "truncated_inside_eos_marker"];
-            s.stub = &["HTTP framing and hyper (bypassed at the transport layer)", "SimTransport replaces HttpTransport", "during offset enumeration remote nodes are replaced by a canned responder serving bytes recorded from the real execute_fragment+encode_ipc"];
+            s.expected_probes = &["reply_fully_enumerated", "truncated_inside_eos_marker", "wire_exchange_recorded", "wire_cut_rejected"];
+            s.stub = &["HTTP framing and hyper (bypassed at the transport layer; real in the wire runs, over in-memory duplex pipes instead of sockets)", "SimTransport replaces HttpTransport", "during offset enumeration remote nodes are replaced by a canned responder serving bytes recorded from the real execute_fragment+encode_ipc"];
             Some((s, cluster::faults::run_c10, cluster::runs::shrink_candidates))
         }
         "C14" => {
@@ -64,8 +64,8 @@ fn registry(prop: &str) -> Option<(CheckSpec, RunFn, Cands)> {
         "C04" | "C07" | "C08" => {
             let (p, rule, f): (&'static str, &'static str, RunFn) = match prop {
                 "C04" => ("C04", "one run = one seeded scenario (1-3 generated tables, 10 statements of every family) executed in a baseline world (memory, one batch, one worker) and in 3 Parquet worlds (1-5 files, row groups of 1..4096 rows, dictionary and statistics on/off, morsel execution on/off) plus one multi-batch memory world; class and canonical rows of every world must equal the baseline's, in both directions; distinct = distinct (physical plan text, world vector, family)", exec::run_c04),
-                "C07" => ("C07", "one run = one seeded scenario (tables of 1000-6000 rows so scans split into partitions, 8 statements) executed in the baseline world and in worlds that vary the batch split (1-14 batches incl. empty), the worker count (1-16; the scan partition count follows it as shipped) and the tokio flavour; distinct = distinct (physical plan text, world vector, family)", exec::run_c07),
-                _ => ("C08", "one run = one seeded scenario (sorts with LIMIT/OFFSET and NULLS FIRST/LAST, grouped/global aggregates, joins of every type, DISTINCT, set operations over 200-4000 rows) executed with an unlimited budget and under 4 seeded budgets swept over the scenario's own size estimates (64 B .. multiples of the data size), spill thresholds 0.1-1.0 and batch sizes 1-1024; a world may fail with an explicit error, it may not answer different rows; distinct = distinct (physical plan text, world vector, family)", exec::run_c08),
+                "C07" => ("C07", "one run = one seeded scenario (tables of 1000-6000 rows so scans split into partitions, 8 statements) executed in the baseline world and in worlds that vary the batch split (1-14 batches incl. empty), the worker count (1-16; the scan partition count follows it as shipped) and the tokio flavour, and in 3 fully deterministic 'virtual partition' worlds: the partition counts of a 2-13-worker process while every task runs on the one simulated thread, with a seeded coin at the engine's scheduling points (per-partition task start, join build/probe tasks, probe completion, spill-aggregate drains, every scan batch) deciding which task gives up its turn -- one seed is one interleaving, replayed exactly; distinct = distinct (physical plan text, world vector, family, scheduling trace)", exec::run_c07),
+                _ => ("C08", "one run = one seeded scenario (sorts with LIMIT/OFFSET and NULLS FIRST/LAST, grouped/global aggregates, joins of every type, DISTINCT, set operations over 200-4000 rows) executed with an unlimited budget and under 4 seeded budgets swept over the scenario's own size estimates (64 B .. multiples of the data size), spill thresholds 0.1-1.0 and batch sizes 1-1024; one budget world in three also arms a disk fault inside the spill paths (the k-th write / append / read / merge of a spill file fails); a world may fail with an explicit error, it may not answer different rows; distinct = distinct (physical plan text, world vector, family)", exec::run_c08),
             };
             let s = CheckSpec {
                 prop: p,
@@ -80,7 +80,11 @@ fn registry(prop: &str) -> Option<(CheckSpec, RunFn, Cands)> {
                 real: &["parser", "binder", "optimizer", "physical planner", "all physical operators incl. spillable join/aggregate/sort", "Parquet readers (eager, streaming, morsel)", "ExecutionContext::sql"],
                 stub: &[],
                 assumptions: &["the baseline world of the same engine is the oracle: a semantics bug shared by every world is invisible by construction", "generated DOUBLE values are dyadic so sums are exact in any order", "worlds with more than one rayon worker or a multi-threaded tokio runtime are seeded samples of real executions (their results are excluded from the replay hash)"],
-                expected_probes: &[],
+                expected_probes: match p {
+                    "C07" => &["sched_yield_taken"],
+                    "C08" => &["explicit_error_under_budget", "injected_disk_fault_surfaced_as_error"],
+                    _ => &[],
+                },
             };
             Some((s, f, exec::shrink_candidates))
         }
@@ -93,7 +97,7 @@ fn registry(prop: &str) -> Option<(CheckSpec, RunFn, Cands)> {
             Some((s, cluster::wire::run_c35, cluster::runs::shrink_candidates))
         }
         "C34" => {
-            let mut s = base("C34", "one run = one seeded world (1-3 real NodeStates, some not loaded, membership resolved/probed to a seeded degree); for 15 statements (8 generated of every family plus an empty result, a one-row aggregate, a >4096-row join, unknown column, unknown table, a syntax error and an unsupported aggregate) and a seeded mode, GetFlightInfo+DoGet are called on the real Flight service in-process and POST /sql?format=arrow goes through real hyper framing, with no event in between; schema names/types, canonical rows, trailer.rows, trailer.distributed vs x-qe-distributed and skipped-reason presence must agree, error classes must correspond; eight malformed / oversized / wrong-version / unknown-mode tickets must be refused with InvalidArgument; distinct = distinct (mode, loaded, status, size class, statement)", 200, 12000);
+            let mut s = base("C34", "one run = one seeded world (1-3 real NodeStates, some not loaded, membership resolved/probed to a seeded degree); for up to 17 statements (8 generated of every family plus an empty result, a one-row aggregate, a >4096-row UNION ALL in several batches, two sorted results that reach the encoder as ONE batch of a seeded size above 4096 rows, unknown column, unknown table, a syntax error and an unsupported aggregate) and a seeded mode, GetFlightInfo+DoGet are called on the real Flight service in-process and POST /sql?format=arrow goes through real hyper framing, with no event in between; schema names/types, canonical rows, trailer.rows, trailer.distributed vs x-qe-distributed and skipped-reason presence must agree, error classes must correspond; eight malformed / oversized / wrong-version / unknown-mode tickets must be refused with InvalidArgument; distinct = distinct (mode, loaded, status, size class, statement)", 200, 12000);
             s.real = &["QeFlightService (get_flight_info, do_get, ticket parsing, encode_flight_stream)", "execute_statement", "/sql handler behind hyper http1", "http_client", "arrow_flight FlightDataDecoder on the client side"];
             s.stub = &["tonic HTTP/2 transport is not exercised: service methods are called in-process", "accept loop bypassed (serve_stream)"];
             s.expected_probes = &["result_over_4096_rows", "empty_result", "error_unavailable", "error_bad-request"];
@@ -140,16 +144,16 @@ fn registry(prop: &str) -> Option<(CheckSpec, RunFn, Cands)> {
                 prop: "C20",
                 engine: "fs-history-sim",
                 level: "exploration",
-                rule: "one run = one Parquet file (1-6 row groups; strings with few, unique or > 4096 distinct values) and 2-4 actors, each a real thread with its own one-thread rayon pool that registers the file and runs 1-2 of five queries with sidecars in build (or auto) mode; half of the actors behave as threads of ANOTHER process (own pid for the staging directory, no shared in-process lock); a seeded controller releases exactly one actor at a time at the park points of ensure_sidecar / build_sidecar / read_row_group, never releases an actor into the held build lock, and may kill an other-process builder at any build point; initial conditions: none, a stale sidecar, a dead builder's staging directory, a fresh sidecar; while all actors are parked a published sidecar carrying .complete must hold every row-group file complete; every query must equal the sidecar-off answer; distinct = distinct (initial condition, sequence of park sites)",
-                runs_quick: 800,
+                rule: "one run = one Parquet file (1-6 row groups; strings with few, unique or > 4096 distinct values) and 2-4 actors, each a real thread with its own one-thread rayon pool that registers the file and runs 1-2 of five queries with sidecars in build (or auto) mode; half of the actors behave as threads of ANOTHER process (own pid for the staging directory, no shared in-process lock); a seeded controller releases exactly one actor at a time at the park points of ensure_sidecar / build_sidecar / read_row_group, never releases an actor into the held build lock or into the publish lock while the KERNEL reports it held (a non-blocking flock probe, not the engine's announcement), and may kill an other-process builder at any build point; initial conditions: none, a stale sidecar (a third of the runs, mostly other-process actors), a dead builder's staging directory, a fresh sidecar; while all actors are parked a published sidecar carrying .complete must hold every row-group file complete; an inotify observer on the sidecar's parent and on the directory at the published path checks after every step that no entry of a complete published sidecar was unlinked while the directory still stood at that path; every query must equal the sidecar-off answer; distinct = distinct (initial condition, sequence of park sites)",
+                runs_quick: 2400,
                 runs_thorough: 60000,
-                secs_quick: 50,
+                secs_quick: 90,
                 secs_thorough: 900,
                 gate_runs: 16,
                 real: &["storage::ipc_cache ensure_sidecar / is_fresh / build_sidecar / read_row_group", "every sidecar call site (morsel, morsel_agg, streaming scan, eager ParquetTable reads)", "BUILD_LOCK for same-process actors, staging + rename for other-process actors"],
                 stub: &["a second process is simulated by a thread that stages under another pid and bypasses the in-process lock (the only two things a process boundary changes for this code); a killed process is an actor thread unwound at a park point"],
                 assumptions: &["reads issued from helper threads without an actor id do not park (they run freely)"],
-                expected_probes: &["published_sidecar_seen_whole", "reader_and_publisher_interleaved", "two_foreign_builders"],
+                expected_probes: &["published_sidecar_seen_whole", "reader_and_publisher_interleaved", "two_foreign_builders", "inotify_observer_attached"],
             };
             Some((s, fshist::sidecar::run_c20, stream::no_shrink))
         }
